@@ -320,15 +320,17 @@ def shrink(c):
 
 
 MANIFEST = {
-    "text": "Executable Gallina model of AValue / ATally (bounded vectors with one invalid value, mixed-radix and "
-            "enumerated indices) and of ADD (chain, tree, stack, concatenate, __call__, sum by product construction, "
-            "restrict, modelcount by backward DP). Theorems: see coverage.theorems of each run (value algebra, index "
-            "bijection, evaluation of sum/restrict/modelcount as far as proved; unproved full statements are kept as "
-            "Definitions in Properties/C10.v). Tied to the code at unit level: diagrams are built through the API, "
-            "dumped, and every operation sequence is replayed in the model; value tables at every assignment and model "
-            "counts are compared after every step, and against the pointwise semantics, inside Coq.",
+    "text": "Proof: C10_avalue_add/_sub (component-wise, invalid exactly when a bound is left or an addend is invalid), "
+            "C10_add_comm/_assoc, C10_bounds_downward_closed, C10_index_bijective (mixed-radix and tally-rank indices "
+            "enumerate domain() bijectively), C10_eval_sum (product construction = pointwise saturating sum), "
+            "C10_eval_restrict / C10_eval_restrict_first (the original with one variable fixed, both branches), "
+            "C10_modelcount (backward DP = histogram of the evaluated value over all assignments, any shape and size), "
+            "C10_eval_is_saturating_path_sum, C10_refuted_F12 -- over an executable Gallina model of AValue / ATally / ADD. "
+            "The constructor clause (chain / tree / stack / concatenate) is tied by correspondence only. Tied to the "
+            "code at unit level: diagrams built through the API are dumped and every operation sequence is replayed in "
+            "the model; value tables and model counts compared after every step, and against pointwise semantics, in Coq.",
     "note": "Trusted: Coq kernel + vm_compute; harness (dump of nodes/child/adder arrays). Binary candidates only. "
-            "F12 (restrict of the only variable) is an open known finding.",
-    "technique": "Coq model + theorems about value algebra and diagram operations; stepwise model/implementation "
-                 "correspondence on operation sequences evaluated by vm_compute",
+            "F12 (restrict of the only variable) is an open known finding; F15 was found here and fixed.",
+    "technique": "Coq proofs (saturating-sum algebra, product-construction simulation, DP invariant by induction over "
+                 "levels, index bijection) about an executable model + stepwise correspondence on operation sequences",
 }
